@@ -20,7 +20,7 @@ ASSUMPTIONS = [
     "planting includes editing the public children list directly (the planted unknown element then has no parent link, or a stale one)",
     "removed subtree roots = nodes no longer reachable from the root that no other unreachable node still lists",
 ]
-REQUIRED = ["parents_with_many_offenders", "trees_with_repeated_id_strings", "typed_table_prunes", "prunes_at_inner_node", "prunes", "prunes_strict", "prunes_removing", "offender_below_parent_with_own_error", "second_prunes", "model_agreements",
+REQUIRED = ["permitted_pairs_pruned", "parents_with_many_offenders", "trees_with_repeated_id_strings", "typed_table_prunes", "prunes_at_inner_node", "prunes", "prunes_strict", "prunes_removing", "offender_below_parent_with_own_error", "second_prunes", "model_agreements",
             "trees_with_metadata"]
 EXHAUSTIVE = {"quick": False, "thorough": False}
 
@@ -398,6 +398,24 @@ def run(ctx, params):
         host.add_child(Node(name, content=rng.choice([None, "x"])), rng.randint(0, len(host.children)))
         ctx.case(judge, ctx, t, j % 2 == 0, ["every-known-name:" + name])
         emlkit.discard(t)
+    # every parent/child pair the tables permit, in a smallest valid tree of the parent: nothing to prune, nothing raised, in both modes
+    # (every element is reached where it is allowed - a broken entry of the element-to-rule map cannot hide behind a parent that
+    # rejects the child before its rule is looked up)
+    known = set(gen.known)
+    for e in gen.known:
+        try:
+            child_names = emlkit.spec_of(gen.known[e]).names
+        except Exception:
+            continue
+        for c in child_names:
+            if c not in known:
+                continue
+            t = anytrees.tree_through(gen, e, c, bare_child=True)      # (a child no valid tree can be built for is planted bare)
+            if t is None:
+                continue
+            ctx.case(judge, ctx, t, (len(e) + len(c)) % 2 == 0, [f"permitted pair {e}/{c}"])
+            ctx.count("permitted_pairs_pruned")
+            emlkit.discard(t)
     # one parent with a hundred and more offenders (some with subtrees): every one of them goes, with everything below it
     for count in (9, 10, 11, 99, 100, 101, 150, 257):
         t = gen.minimal_tree("dataset")
